@@ -147,11 +147,16 @@ def verify_unit(unit, repo, canary=False, extra_stubs=()):
     return r
 
 
+import threading
+_EXTRACT_LOCK = threading.Lock()    # the extractor keeps per-unit state in module globals (the overlay names); the verifier runs are subprocesses
+
+
 def verify_unit_once(unit, repo, canary=False, extra_stubs=()):
     r = UnitResult(unit)
     t0 = time.time()
     try:
-        out, info = extract.build(unit, repo, canary=canary, extra_stubs=extra_stubs)
+        with _EXTRACT_LOCK:
+            out, info = extract.build(unit, repo, canary=canary, extra_stubs=extra_stubs)
     except extract.Undecided as e:
         r.undecided = str(e)
         return r
@@ -519,8 +524,12 @@ def main():
     results = []
     canaries = []
     undecided = []
-    for u in cfg.get('units', []):
-        r = verify_unit(u, a.repo)
+    # the units of a property are independent verifier runs: up to four at a time
+    from concurrent.futures import ThreadPoolExecutor
+    unit_list = list(cfg.get('units', []))
+    with ThreadPoolExecutor(max_workers=4) as ex:
+        unit_results = list(ex.map(lambda u: verify_unit(u, a.repo), unit_list))
+    for u, r in zip(unit_list, unit_results):
         results.append(r)
         if r.undecided:
             undecided.append('%s: %s' % (u, r.undecided))
@@ -528,13 +537,18 @@ def main():
     canary_total = 0
     canary_failed_as_required = 0
     if not undecided:
+        canary_jobs = []
         for u in cfg.get('units', []):
             passes = ['A']
             base = [r for r in results if r.unit == u][0]
             if base.info and base.info.get('non_isolated'):
                 passes.append('B')
             for cp in passes:
-                rc = verify_unit(u, a.repo, canary=cp)
+                canary_jobs.append((u, cp))
+        with ThreadPoolExecutor(max_workers=4) as ex:
+            canary_results = list(ex.map(lambda j: verify_unit(j[0], a.repo, canary=j[1]), canary_jobs))
+        for (u, cp), rc in zip(canary_jobs, canary_results):
+            if True:
                 # In a canary run every planted `assert(false)` must be REPORTED AS FAILED; what the solver does with the rest of a
                 # function after such a failure (it goes on under the assumption `false` was true elsewhere, and may run out of
                 # its resource limit) says nothing.  A resource limit in a canary run is therefore not an answer of its own.
